@@ -127,6 +127,8 @@ class Gen:
         elif gtype == 10:
             low5 = (low5 & 0x1E) | r.randrange(2)
             c = self.word(); d = self.word()
+        if ver == 1 and gtype != 10 and r.random() < 0.5:
+            c = a if r.random() < 0.8 else r.choice(self.pi_pool)      # version B: block C' repeats the PI (or carries another one)
         b = self.block_b(gtype, ver, low5)
         self.count("type%d%s" % (gtype, "AB"[ver]))
         e = [self.err(zero) for _ in range(4)]
@@ -407,6 +409,24 @@ def sweep_aba():
                         out += [a, b] + mid + [a]
     return out
 
+def sweep_overrange():
+    """threshold requests above 'large' (3, 4, 200, 255), also on top of a threshold that already is at its maximum, each
+    followed by text groups whose blocks carry error codes 3 and above: an out-of-range request must be clamped, and a block
+    flagged 3 or more is never used"""
+    out = ["new"] + ALL_CBS
+    tmpl = {0: 0x0000, 1: 0x2000, 2: 0xA000}
+    for text in range(3):
+        for kind in range(2):
+            for first in (None, 0, 1, 2):
+                for v in (3, 4, 200, 255):
+                    out.append("clear")
+                    out += ["c %d 0 1" % text, "c %d 1 1" % text]
+                    if first is not None: out.append("c %d %d %d" % (text, kind, first))
+                    out.append("c %d %d %d" % (text, kind, v))
+                    for (eb, ec, ed) in ((0, 0, 0), (1, 3, 3), (3, 1, 1), (2, 3, 1), (1, 1, 3), (3, 3, 3), (4, 1, 1), (1, 4, 200), (2, 2, 2)):
+                        out.append(P(0x1234, tmpl[text] | 1, 0x4142 + 0x0101 * eb, 0x4344 + 0x0101 * ed, 0, eb, ec, ed))
+    return out
+
 def sweep_rt_levels(stride=1, phase=0):
     """RT scenarios over every combination of thresholds and error levels of the stored group: store one group for flag X
     (so that every stored cell has the same weighted level), switch to Y, switch back to X with every text block
@@ -566,6 +586,8 @@ def hex_malformed():
     for n in range(0, 41):
         out.append(hexstr((base16 * 3)[:n]))
     out.append("s N")
+    for n in (19, 64, 254, 255, 256, 257, 300, 511, 512, 1000, 4096, 65536 + 16):
+        out.append(hexstr((b"0123456789abcdefABCDEF" * (n // 22 + 1))[:n]))      # nothing but hexadecimal digits, far too long
     for s in (b" 234567890123456", b"-234567890123456", b"+234567890123456", b"0x12567890123456", b"123456789012 456",
               b"1234567890123456-1", b"1234567890123456 1", b"1234567890123456+f", b"1234\t6789012345600", b"12345678901234560x"):
         out.append(hexstr(s))
